@@ -23,6 +23,16 @@ Definition is_blockish (t : tok) : bool :=
   end.
 Definition single_raw (ch : list tok) : bool := match ch with [RawText _] => true | _ => false end.
 
+(* a list's start agrees with its first item's marker: None for a bullet, the marker's number otherwise *)
+Definition start_of_leader (leader : str) : option Z :=
+  if slen leader =? 1 then None else Some (int_of_digits (removelast leader)).
+Definition opt_z_eqb (a b : option Z) : bool :=
+  match a, b with None, None => true | Some x, Some y => x =? y | _, _ => false end.
+Lemma opt_z_eqb_refl a : opt_z_eqb a a = true.
+Proof. destruct a; [apply Z.eqb_refl|reflexivity]. Qed.
+Definition list_start_agrees (start : option Z) (ch : list tok) : bool :=
+  match ch with ListItem a _ :: _ => opt_z_eqb start (start_of_leader (i_leader a)) | _ => true end.
+
 (* containers hold only the kinds of children their documentation states; inline
    tokens never contain block tokens *)
 Fixpoint wf_shape (t : tok) : bool :=
@@ -35,7 +45,7 @@ Fixpoint wf_shape (t : tok) : bool :=
   | SetextHeading l _ ch => (1 <=? l) && (l <=? 2) && forallb is_inline ch && all ch
   | AutoLink _ _ ch | EscapeSequence ch => single_raw ch
   | Quote ch | ListItem _ ch | Document ch => forallb is_blockish ch && all ch
-  | List _ _ ch => forallb is_item ch && all ch
+  | List start _ ch => list_start_agrees start ch && forallb is_item ch && all ch
   | Table _ h ch => match h with Some h' => is_row h' && wf_shape h' | None => true end && forallb is_row ch && all ch
   | TableRow _ ch => forallb is_cell ch && all ch
   | LinkRefDefBlock ch => forallb (fun c => match c with LinkRefDef _ => true | _ => false end) ch
@@ -294,7 +304,9 @@ Section BuildShape.
     - cbn [build is_pitem wf_pre] in *. destruct (kids_blockish es IH Hw) as [H1 H2]. unfold kids in *.
       split; [|reflexivity]. cbn [wf_shape]. now rewrite H1, H2.
     - cbn [build is_pitem wf_pre] in *. destruct (kids_items es IH Hw) as [H1 H2]. unfold kids in *.
-      split; [|reflexivity]. cbn [wf_shape]. now rewrite H1, H2.
+      split; [|reflexivity]. cbn [wf_shape]. rewrite H1, H2.
+      match goal with |- list_start_agrees _ ?k && _ && _ = true => destruct k as [|[] r] end; try reflexivity.
+      unfold list_start_agrees, start_of_leader. rewrite opt_z_eqb_refl. reflexivity.
     - cbn [build is_pitem wf_pre] in *. destruct (kids_blockish es IH Hw) as [H1 H2]. unfold kids in *.
       split; [|reflexivity]. cbn [wf_shape]. now rewrite H1, H2.
   Qed.
